@@ -294,6 +294,8 @@ func (l *Lexer) NextToken() token.Token {
 			return tok
 		}
 		tok = newSingleCharToken(token.ILLEGAL, l.ch, l.lineNumber, l.charNumber, l.utf8CharNumber)
+		// The character can be wider than one byte.
+		tok.StartCharIndex = l.prevCharNumber
 	}
 
 	l.readChar()
